@@ -10,6 +10,7 @@ list [[tid, ticks], ...], which is what replay files store and re-impose.
 """
 
 import random
+import sys
 import threading
 
 from . import steps
@@ -21,10 +22,14 @@ class HarnessError(Exception):
     pass
 
 
+def _ask_for_opcode_events():
+    sys._getframe().f_trace_opcodes = True
+
+
 class Scheduler(object):
 
     def __init__(self, n_threads, schedule, limit, inject_tick=None,
-                 total_hint=100000):
+                 total_hint=100000, opcodes=False):
         self.n = n_threads
         self.schedule = schedule
         self.kind = schedule['kind']
@@ -38,6 +43,13 @@ class Scheduler(object):
         self.injected_in = None     # (tid, op index) where the fault fired
         self.current_op = [None] * n_threads
         self.clock = steps.StepClock(limit, self.hook)
+        self.opcodes = bool(opcodes) and hasattr(self.clock, 'opcodes')
+
+        if self.opcodes:
+            # Pre-emption points between bytecode instructions, not only
+            # between source lines.
+            self.clock.opcodes = 1
+
         self.clock.hook_at = FOREVER
         self.next_switch = FOREVER
         self.finished = threading.Event()
@@ -234,6 +246,15 @@ class Scheduler(object):
 
         try:
             self.clock.install()
+
+            if self.opcodes:
+                # CPython 3.12 only enables instruction events once some
+                # frame has asked for them (an interpreter-wide flag that
+                # PyEval_SetTrace looks at).  The frame asking must belong
+                # to a thread that already has a trace function: 3.12.1
+                # calls a NULL c_tracefunc otherwise.
+                _ask_for_opcode_events()
+                self.clock.install()
 
             try:
                 body(tid)
